@@ -13,7 +13,8 @@ Record ep := mk_ep {
   ep_sev : sev;
   ep_gated : bool;    (* the call reaching logContext is dominated by EnabledContext(ctx, same level) *)
   ep_skip : Z;        (* literal given to getpc *)
-  ep_depth : Z        (* logg frames from the entry point down to the caller of getpc, inclusive *)
+  ep_depth : Z;       (* logg frames from the entry point down to the caller of getpc, inclusive *)
+  ep_tail : bool      (* the call chain ends in Entry.logContext: the record passes the termination tail (C12) *)
 }.
 
 Fixpoint find_ep (recv name : bytes) (l : list ep) : option ep :=
